@@ -1777,7 +1777,11 @@ int ov_pcm_seek(OggVorbis_File *vf,ogg_int64_t pos){
     /* note that halfrate could be set differently in each link, but
        vorbisfile encoforces all links are set or unset */
     int hs=vorbis_synthesis_halfrate_p(vf->vi);
-    while(vf->pcm_offset<((pos>>hs)<<hs)){
+    /* loop while at least one whole output sample remains to be dropped.
+       At half rate pcm_offset moves in steps of two and is odd throughout
+       a link that starts on an odd sample, so test the distance rather
+       than pos rounded down to even */
+    while(pos-vf->pcm_offset>=(1<<hs)){
       ogg_int64_t target=(pos-vf->pcm_offset)>>hs;
       long samples=vorbis_synthesis_pcmout(&vf->vd,NULL);
 
